@@ -445,18 +445,19 @@ theorem inv_dispatch (app : App) (hwf : app.WF) (s s' : State) (hs : app.Inv s) 
     · cases h
     · match args, h with
       | [], h => cases h; exact hs
-      | [v], h =>
+      | v :: rest, h =>
         simp only at h
-        cases hst : store (app.param i).kind v with
-        | none => simp [hst] at h
-        | some v' =>
-          simp only [hst] at h
-          split at h
-          · next hg =>
-            cases h
-            exact App.inv_setParam hwf s hs i hi v' (storable_of_store _ (hwf.kind_ok i hi) v v' hst) hg
-          · cases h; exact hs
-      | _ :: _ :: _, h => simp at h
+        split at h
+        · cases h
+        · cases hst : store (app.param i).kind v with
+          | none => simp [hst] at h
+          | some v' =>
+            simp only [hst] at h
+            split at h
+            · next hg =>
+              cases h
+              exact App.inv_setParam hwf s hs i hi v' (storable_of_store _ (hwf.kind_ok i hi) v v' hst) hg
+            · cases h; exact hs
 
 theorem inv_run (app : App) (hwf : app.WF) (msgs : List (Path × List Val)) (s : State)
     (hs : app.Inv s) : app.Inv (app.run msgs s) := by
@@ -485,11 +486,11 @@ def dispatchAt (app : App) (i : Nat) (args : List Val) (s : State) : Option Stat
   if ptrOff p s then none
   else match args with
     | [] => some s
-    | [v] =>
-      match store p.kind v with
+    | v :: rest =>
+      if !rest.isEmpty && !lastAlt p.kind v then none
+      else match store p.kind v with
       | none => none
       | some v' => if guardsOn p s then some (app.setParam i v' s) else some s
-    | _ => none
 
 theorem dispatch_eq (app : App) (addr : Path) (args : List Val) (s : State) :
     app.dispatch addr args s = (app.findAddr addr).bind fun i => app.dispatchAt i args s := by
@@ -508,9 +509,10 @@ theorem dispatchAt_wr (app : App) (i : Nat) (args : List Val) (s s' : State)
     · split at h
       · cases h
       · split at h
-        · cases h; exact setParam_not_wr app i _ s hk
-        · cases h; rfl
-    · cases h
+        · cases h
+        · split at h
+          · cases h; exact setParam_not_wr app i _ s hk
+          · cases h; rfl
 
 /-- what a `setParam` that really runs leaves behind -/
 theorem setParam_shape (hwf : app.WF) (i : Nat) (v : Val) (s : State)
@@ -609,11 +611,11 @@ def outcome (app : App) (i : Nat) (args : List Val) (s : State) : Outcome :=
   if ptrOff p s then .miss
   else match args with
     | [] => .same
-    | [v] =>
-      match store p.kind v with
+    | v :: rest =>
+      if !rest.isEmpty && !lastAlt p.kind v then .miss
+      else match store p.kind v with
       | none => .miss
       | some v' => if guardsOn p s then .set v' else .same
-    | _ => .miss
 
 def Outcome.run (app : App) (i : Nat) (s : State) : Outcome → Option State
   | .miss => none
@@ -629,16 +631,18 @@ theorem dispatchAt_outcome (app : App) (i : Nat) (args : List Val) (s : State) :
   · rw [if_neg hp, if_neg hp]
     match args with
     | [] => rfl
-    | [v] =>
+    | v :: rest =>
       simp only
-      cases store (app.param i).kind v with
-      | none => rfl
-      | some v' =>
-        simp only
-        by_cases hg : guardsOn (app.param i) s = true
-        · rw [if_pos hg, if_pos hg]; rfl
-        · rw [if_neg hg, if_neg hg]; rfl
-    | _ :: _ :: _ => rfl
+      by_cases hl : (!rest.isEmpty && !lastAlt (app.param i).kind v) = true
+      · rw [if_pos hl, if_pos hl]; rfl
+      · rw [if_neg hl, if_neg hl]
+        cases store (app.param i).kind v with
+        | none => rfl
+        | some v' =>
+          simp only
+          by_cases hg : guardsOn (app.param i) s = true
+          · rw [if_pos hg, if_pos hg]; rfl
+          · rw [if_neg hg, if_neg hg]; rfl
 
 theorem outcome_frame (hwf : app.WF) {i : Nat} (hi : i < app.size) (args : List Val) (s t : State)
     (h : ∀ a ∈ (app.param i).anc, s a = t a) : app.outcome i args s = app.outcome i args t := by
@@ -878,7 +882,7 @@ theorem saveItem_array (app : App) (s : State) (base : Path) (first len : Nat) :
             = ((List.range len).map (· + first)).map (fun i => s i) then none
         else some ⟨base, .arr ((((List.range len).map (· + first)).take
           (firstEqualIndex (((List.range len).map (· + first)).map (fun i => evalDflt (app.param i) s))
-            (((List.range len).map (· + first)).map (fun i => s i)) 0 0)).map
+            (((List.range len).map (· + first)).map (fun i => mapArgVal (app.param i).kind (s i))) 0 0)).map
             fun i => mapArgVal (app.param i).kind (s i))⟩
       else none := by
   by_cases h : guardsOn (app.param first) s = true <;> simp [saveItem, h]
@@ -1227,7 +1231,8 @@ theorem step_scalar (hwf : app.WF) {s : State} (hs : app.Inv s) {k : Nat} (hk : 
       have hgt : guardsOn (app.param k) t = true := hg.trans hgs
       have hst : store (app.param k).kind (mapArgVal (app.param k).kind (s k)) = some (s k) :=
         hs.storable k hk
-      simp only [ptrOff_of_guardsOn _ _ hgt, hst, hgt, if_true, Bool.false_eq_true, if_false]
+      simp only [ptrOff_of_guardsOn _ _ hgt, hst, hgt, if_true, Bool.false_eq_true, if_false, List.isEmpty_nil,
+        Bool.not_true, Bool.false_and]
   · next hgs =>
     refine ⟨t, rfl, hone ?_⟩
     simp only [Bool.not_eq_true] at hgs
@@ -1280,6 +1285,59 @@ theorem firstEqualIndex_suffix (ds rs : List Val) (i acc : Nat) (h : acc ≤ i) 
 
 end Rtosc.Save
 namespace Rtosc.Save
+
+/-- an element that equals its (canonicalised) default after `map_arg_vals` equalled it before: an option's index
+    becomes a symbol, which no canonicalised default of that port is -/
+theorem mapArgVal_eq_canonicalize (k : Kind) (v x : Val) (h : mapArgVal k v = canonicalize k x) :
+    v = canonicalize k x := by
+  cases k with
+  | opt names =>
+    cases v with
+    | int i =>
+      unfold mapArgVal at h
+      simp only at h
+      split at h
+      · next hin =>
+        exfalso
+        have hlt : i.toNat < names.length := hin.2
+        have hmem : names.getD i.toNat [] ∈ names := by
+          rw [List.getD_eq_getElem?_getD, List.getElem?_eq_getElem hlt]; exact List.getElem_mem _
+        cases x with
+        | sym t =>
+          unfold canonicalize at h
+          simp only at h
+          cases hk : enumKey names t with
+          | some j => rw [hk] at h; cases h
+          | none =>
+            rw [hk] at h
+            cases h
+            unfold enumKey at hk
+            simp only at hk
+            split at hk
+            · cases hk
+            · next hnl => exact hnl (List.idxOf_lt_length_of_mem hmem)
+        | int j => simp [canonicalize] at h
+        | chr j => simp [canonicalize] at h
+        | flt j => simp [canonicalize] at h
+        | bool j => simp [canonicalize] at h
+        | str j => simp [canonicalize] at h
+      · exact h
+    | chr _ => exact h
+    | flt _ => exact h
+    | bool _ => exact h
+    | sym _ => exact h
+    | str _ => exact h
+  | int _ _ => exact h
+  | chr => exact h
+  | ichar _ _ => exact h
+  | flt _ _ => exact h
+  | tog => exact h
+  | str _ => exact h
+
+theorem mapArgVal_eq_evalDflt (p : Param) (s : State) (v : Val) (h : evalDflt p s = mapArgVal p.kind v) :
+    evalDflt p s = v := by
+  unfold evalDflt at h ⊢
+  exact (mapArgVal_eq_canonicalize _ _ _ h.symm).symm
 
 theorem arr_lists (f g : Nat → Val) (first len : Nat) :
     (∀ k, k < len → firstEqualIndex (((List.range len).map (· + first)).map f)
@@ -1346,7 +1404,8 @@ theorem arr_elem (hwf : app.WF) {s : State} (hs : app.Inv s) {base : Path} {firs
     have hst : store (app.param (first + k)).kind
         (mapArgVal (app.param (first + k)).kind (s (first + k))) = some (s (first + k)) :=
       hs.storable (first + k) hks
-    simp only [ptrOff_of_guardsOn _ _ hgt, hst, hgt, if_true, Bool.false_eq_true, if_false]
+    simp only [ptrOff_of_guardsOn _ _ hgt, hst, hgt, if_true, Bool.false_eq_true, if_false, List.isEmpty_nil,
+        Bool.not_true, Bool.false_and]
   · intro x hx
     apply setParam_not_wr
     rintro (h | h)
@@ -1418,8 +1477,18 @@ theorem step_array (hwf : app.WF) {s : State} (hs : app.Inv s) {base : Path} {fi
       have := (List.map_inj_left.mp heq) (k + first) (by simp; exact hk)
       rw [Nat.add_comm]; exact this
     · next hne =>
-      obtain ⟨hsuf, hpos⟩ := arr_lists (fun i => evalDflt (app.param i) s) (fun i => s i) first len
-      have hpos := hpos hne
+      obtain ⟨hsuf, hpos⟩ := arr_lists (fun i => evalDflt (app.param i) s)
+        (fun i => mapArgVal (app.param i).kind (s i)) first len
+      have hsuf : ∀ k, k < len → firstEqualIndex (((List.range len).map (· + first)).map fun i => evalDflt (app.param i) s)
+          (((List.range len).map (· + first)).map fun i => mapArgVal (app.param i).kind (s i)) 0 0 ≤ k →
+          evalDflt (app.param (first + k)) s = s (first + k) :=
+        fun k hk hn => mapArgVal_eq_evalDflt _ s _ (hsuf k hk hn)
+      have hpos := hpos (by
+        intro heq
+        apply hne
+        apply List.map_congr_left
+        intro i hi
+        exact mapArgVal_eq_evalDflt _ s _ ((List.map_inj_left.mp heq) i hi))
       rw [arr_vals_eq (fun i => mapArgVal (app.param i).kind (s i))]
       generalize firstEqualIndex _ _ 0 0 = n at hsuf hpos
       obtain ⟨r, hr, h1, h2⟩ := arr_run hwf hs hw hsz hgs (min n len) 0 (by omega) t hm.below
